@@ -20,6 +20,8 @@ import (
 	"sync"
 	"time"
 
+	pprofpkg "github.com/google/pprof/profile"
+
 	"verif/mc/ev"
 	"verif/mc/wkpool"
 )
@@ -131,17 +133,41 @@ func runProfile(p *Prof, vias int, perms bool) *wkpool.CaseResult {
 		return c.res
 	}
 	if vias > 1 {
+		// every parser entry point x every delivery of the same bytes (whole, 1 byte per Read, 7 bytes per Read, two
+		// halves) must emit the same rows
 		base, _ := parse(p, viaBinaryRaw)
-		for _, via := range []int{viaBinaryGz, viaMultipart} {
-			pd, err := parse(p, via)
-			if err != nil {
-				c.viol("parser_rejects_what_the_other_accepts", "parser %d: %v", via, err)
-				continue
+		be := emitted(base)
+		for _, via := range []int{viaBinaryRaw, viaBinaryGz, viaMultipart} {
+			for _, seg := range []int{0, 1, 7, -1} {
+				if via == viaBinaryRaw && seg == 0 {
+					continue
+				}
+				pd, err := parse(p, via, seg)
+				if err != nil {
+					c.viol("parser_rejects_what_the_other_accepts", "parser %d, %d bytes per Read: %v", via, seg, err)
+					continue
+				}
+				c.res.RealTraces++
+				if d := storedEqual(be, emitted(pd)); d != "" {
+					c.viol("parsers_disagree", "binary/octet-stream whole body vs parser %d with %d bytes per Read: %s", via, seg, d)
+				}
 			}
-			c.res.RealTraces++
-			if d := storedEqual(emitted(base), emitted(pd)); d != "" {
-				c.viol("parsers_disagree", "binary/octet-stream vs parser %d: %s", via, d)
+		}
+	}
+	// observation (the statement is about the tree): the stored pprof payload still is the pushed profile
+	if pp, err := pprofpkg.ParseData([]byte(st.Payload)); err != nil {
+		c.count("obs_stored_payload_unparsable")
+	} else {
+		ok := len(pp.Sample) == len(p.Samples)
+		for j := 0; ok && j < p.NTypes; j++ {
+			var sum int64
+			for _, sm := range pp.Sample {
+				sum += sm.Value[j]
 			}
+			ok = sum == p.sampleSum(j)
+		}
+		if !ok {
+			c.count("obs_stored_payload_differs_from_pushed_profile")
 		}
 	}
 	if got != nil {
